@@ -583,7 +583,8 @@ class Protocol:
             flush-pkt.
         """
         pkt = self.read_pkt_line()
-        while pkt:
+        # An empty pkt-line ("0004") is data, not the end of the sequence.
+        while pkt is not None:
             yield pkt
             pkt = self.read_pkt_line()
 
